@@ -1176,8 +1176,21 @@ func (x *Exec) modSummary(fn *ssa.Function) (map[string]bool, bool) {
 }
 
 func (x *Exec) modSumWalk(fn *ssa.Function, heaps map[string]bool, seen map[*ssa.Function]bool, depth int) bool {
+	inst := fn // the instantiation, whose signature has concrete types
 	if o := fn.Origin(); o != nil {
 		fn = o
+	}
+	if fc, _ := x.contractOf(fn); fc != nil && depth > 0 {
+		// a callee under contract contributes its modifies clause (evaluated for this instantiation)
+		if fc.ModAll {
+			return true
+		}
+		for _, m := range fc.Modifies {
+			for _, hn := range x.modHeapNames(m, inst, nil) {
+				heaps[hn] = true
+			}
+		}
+		return false
 	}
 	if seen[fn] {
 		return false
@@ -1185,17 +1198,6 @@ func (x *Exec) modSumWalk(fn *ssa.Function, heaps map[string]bool, seen map[*ssa
 	seen[fn] = true
 	if depth > 12 || len(seen) > 400 {
 		return true
-	}
-	if fc, _ := x.contractOf(fn); fc != nil && depth > 0 {
-		if fc.ModAll {
-			return true
-		}
-		for _, m := range fc.Modifies {
-			for _, hn := range x.modHeapNames(m, fn, nil) {
-				heaps[hn] = true
-			}
-		}
-		return false
 	}
 	if x.isAssumedPure(fn) {
 		return false
@@ -1335,6 +1337,30 @@ func (x *Exec) enterBlock(st *State, b, pred *ssa.BasicBlock) bool {
 	kind := "inv-entry"
 	if back {
 		kind = "inv-preserve"
+	}
+	if !back && x.fc != nil && len(st.stack) == 1 {
+		// ghost asserts `assert at-entry:<N> <name> <sx>`: what holds when loop N is reached (before its first iteration)
+		l := fmt.Sprintf("at-entry:%d", ord)
+		for _, cl := range x.fc.Asserts[l] {
+			cl := cl
+			func() {
+				defer func() {
+					if r := recover(); r != nil {
+						if _, ok := r.(specError); ok {
+							return
+						}
+						panic(r)
+					}
+				}()
+				t := x.evalBool(st, cl.SX, x.specEnv(st, fr, nil))
+				if x.assertHit == nil {
+					x.assertHit = map[string]bool{}
+				}
+				x.assertHit[l+"/"+cl.Name] = true
+				x.emit(st, "assert", fmt.Sprintf("%s/assert:%s@entry-of-loop%d", x.funcKeyOf(x.fn), cl.Name, ord), cl, t)
+				x.assume(st, t)
+			}()
+		}
 	}
 	fname := x.funcKeyOf(fr.fn)
 	if spec == nil {
@@ -1614,6 +1640,11 @@ func (x *Exec) step(st *State) []*State {
 		case *ssa.If:
 			c := x.get(st, i.Cond)
 			tb, fb := fr.block.Succs[0], fr.block.Succs[1]
+			if x.fc != nil && x.fc.hasGhost("merge-simple-branches") && len(st.stack) == 1 {
+				if x.mergeSimpleBranch(st, fr, c, tb, fb) {
+					continue
+				}
+			}
 			var out []*State
 			prune := x.fc != nil && len(x.fc.Focus) > 0 && len(st.focused) > 0
 			s2 := st.clone()
@@ -1668,6 +1699,118 @@ func (x *Exec) step(st *State) []*State {
 }
 
 func (x *Exec) atPanic(st *State) {}
+
+// mergeSimpleBranch executes an `if c { T }` whose body T is a single block of stores and pure computations that
+// falls through to the join block, WITHOUT forking the path: T runs under the assumption c, every fact it adds is
+// guarded by c afterwards, and each heap it changed becomes ite(c, heap-after-T, heap-before).  Opt-in per contract
+// (`ghost merge-simple-branches`): call counters are not branch-sensitive in a merged branch, so contracts that
+// count calls must not use it.  Returns false (nothing done) when the shape does not fit.
+func (x *Exec) mergeSimpleBranch(st *State, fr *Frame, c Val, tb, fb *ssa.BasicBlock) bool {
+	T, J, cond := tb, fb, c.S
+	fits := func(T, J *ssa.BasicBlock) bool {
+		if len(T.Preds) != 1 || len(T.Succs) != 1 || T.Succs[0] != J || T == J {
+			return false
+		}
+		if _, isHead := x.loops[T]; isHead {
+			return false
+		}
+		if _, isHead := x.loops[J]; isHead {
+			return false
+		}
+		for _, in := range J.Instrs {
+			if _, ok := in.(*ssa.Phi); ok {
+				return false
+			}
+		}
+		for _, in := range T.Instrs {
+			switch i := in.(type) {
+			case *ssa.FieldAddr, *ssa.IndexAddr, *ssa.Store, *ssa.UnOp, *ssa.BinOp, *ssa.Extract, *ssa.Field, *ssa.Index,
+				*ssa.DebugRef, *ssa.Jump, *ssa.Convert, *ssa.ChangeType, *ssa.MakeInterface, *ssa.Slice, *ssa.Lookup:
+			case *ssa.Call:
+				callee := i.Common().StaticCallee()
+				if callee == nil {
+					return false
+				}
+				fc, _ := x.contractOf(callee)
+				if !(fc != nil && fc.Pure) && !x.isAssumedPure(callee) {
+					return false
+				}
+			default:
+				return false
+			}
+		}
+		return true
+	}
+	if !fits(T, J) {
+		T, J, cond = fb, tb, "(not "+c.S+")"
+		if !fits(T, J) {
+			return false
+		}
+	}
+	before := make(map[string]string, len(st.heaps))
+	for k, v := range st.heaps {
+		before[k] = v
+	}
+	epoch0 := st.epoch
+	guardAt := len(st.lines)
+	st.add("(assert " + cond + ")")
+	cur := fr.block
+	if !x.enterBlock(st, T, cur) {
+		return false
+	}
+	for fr.pc < len(T.Instrs) {
+		in := T.Instrs[fr.pc]
+		fr.pc++
+		if _, ok := in.(*ssa.Jump); ok {
+			break
+		}
+		if !x.instr(st, in) || len(st.stack) != 1 {
+			x.errs = append(x.errs, fmt.Sprintf("%s: merge-simple-branches: block %d did not run straight", x.funcKeyOf(x.fn), T.Index))
+			return true
+		}
+	}
+	if st.epoch != epoch0 {
+		x.errs = append(x.errs, fmt.Sprintf("%s: merge-simple-branches: block %d havocked every heap", x.funcKeyOf(x.fn), T.Index))
+		return true
+	}
+	// facts added inside T hold under the branch condition only
+	st.lines[guardAt] = "; merged branch: " + cond
+	for k := guardAt + 1; k < len(st.lines); k++ {
+		if strings.HasPrefix(st.lines[k], "(assert ") {
+			st.lines[k] = "(assert (=> " + cond + " " + strings.TrimSuffix(strings.TrimPrefix(st.lines[k], "(assert "), ")") + "))"
+		}
+	}
+	st.facts = nil // recorded conjuncts of the guarded region are no longer unconditional
+	// heaps changed by T
+	names := map[string]bool{}
+	for k := range st.heaps {
+		names[k] = true
+	}
+	for k := range before {
+		names[k] = true
+	}
+	var sorted []string
+	for k := range names {
+		sorted = append(sorted, k)
+	}
+	sort.Strings(sorted)
+	for _, n := range sorted {
+		if st.heaps[n] == before[n] {
+			continue
+		}
+		so := x.heapSo[n]
+		if so == "" {
+			continue
+		}
+		after := heapSymIn(x, st.heaps, st.epoch, n, so)
+		prev := heapSymIn(x, before, epoch0, n, so)
+		x.setHeap(st, n, so, fmt.Sprintf("(ite %s %s %s)", cond, after, prev))
+	}
+	if !x.enterBlock(st, J, T) {
+		return true
+	}
+	return true
+}
 
 // loopExitAsserts proves, then assumes, the contract's `assert at-exit:<N> <name> <sx>` clauses on the edge that
 // leaves loop N from its head (ghost asserts: what the finished loop established, stated once).
